@@ -128,6 +128,12 @@ fn run_scenario(sc: &Value) {
                                 "delay" => {
                                     SchedulableSuspender::current().expect("task outside a coroutine").delay(Duration::from_millis(4));
                                 }
+                                // the task submits a follow-up task to its own pool (refused once the pool is stopping)
+                                "chain" => {
+                                    let ok = CoroutinePool::current()
+                                        .map(|p| p.submit_task(Some(format!("chain{t}")), |_| Some(7), None, None).is_ok());
+                                    rec(json!({"ev": "chain", "task": t, "ok": ok.unwrap_or(false), "none": ok.is_none()}));
+                                }
                                 "long_delay" => {
                                     SchedulableSuspender::current().expect("task outside a coroutine").delay(Duration::from_millis(40));
                                 }
